@@ -271,6 +271,9 @@ def base_messages(pkg):
         {"name": "Leg", "fields": [{"name": "start", "type": "message", "type_name": P + ".Stop", "required": True},
                                    {"name": "finish", "type": "message", "type_name": P + ".Stop", "required": True},
                                    {"name": "minutes", "type": "int32"}]},
+        # reserved words as field names (`format_`, `type_`, `next_` in the emitted types): for dotted method signatures
+        {"name": "Folio", "fields": [{"name": "format", "type": "string"}, {"name": "type", "type": "int32"},
+                                     {"name": "next", "type": "message", "type_name": P + ".Plain"}, {"name": "caption", "type": "string"}]},
         {"name": "Trip", "fields": [{"name": "origin", "type": "message", "type_name": P + ".Stop", "required": True},
                                     {"name": "leg", "type": "message", "type_name": P + ".Leg", "required": True},
                                     {"name": "last", "type": "message", "type_name": P + ".Stop", "required": True}]},
@@ -354,7 +357,7 @@ def gen_request_fields(r, pkg, twist=None):
         elif k == "optional":
             fields.append({"name": fname(), "type": r.pick(SCALARS), "optional": True})
         elif k == "message":
-            fields.append({"name": fname(), "type": "message", "type_name": P + r.pick([".Plain", ".Book", ".Wrapper"])})
+            fields.append({"name": fname(), "type": "message", "type_name": P + r.pick([".Plain", ".Book", ".Wrapper", ".Folio", ".Leg"])})
         elif k == "map":
             fields.append({"name": fname(), "map": ["string", r.pick(["string", "int32"])]})
         elif k == "rep_message":
@@ -470,6 +473,34 @@ def gen_api(r, idx, transport=None, twists=0.0, n_methods=None, selective=None):
                         and f["name"] not in ("request", "requests", "retry", "timeout", "metadata")][:2]
                 if flat and r.maybe(0.4):
                     me["sigs"] = [",".join(flat)]
+                # dotted method signatures: fields of nested messages (1..3 levels below a top-level message field), alone or
+                # mixed with top-level fields; the client names the keyword parameter after the LEAF field
+                tops = [f for f in fields if f.get("type") == "message" and not f.get("repeated") and not f.get("oneof")
+                        and not f.get("optional") and not f.get("tw") and f.get("type_name", "").startswith(P + ".")
+                        and f["type_name"].count(".") == P.count(".") + 1]
+                if tops and r.maybe(0.45):
+                    table = {P + "." + m_["name"]: m_["fields"] for m_ in main["messages"]}
+                    table.update({P + "." + m_["name"]: m_["fields"] for m_ in shared["messages"]})
+                    entries = list(flat[:r.randint(0, len(flat))]) if r.maybe(0.6) else []
+                    taken = {leaf_param(x) for x in entries} | {"request", "requests", "retry", "timeout", "metadata", "self_"}
+                    for _k in range(r.randint(1, 3)):
+                        top = r.pick(tops)
+                        path, cur = [top["name"]], table.get(top["type_name"])
+                        for _d in range(r.randint(1, 3)):
+                            cands = [g for g in (cur or []) if not g.get("map")]
+                            if not cands:
+                                break
+                            g = r.pick(cands)
+                            path.append(g["name"])
+                            cur = table.get(g.get("type_name")) if (g.get("type") == "message" and not g.get("repeated")) else None
+                            if cur is None:
+                                break
+                        if len(path) >= 2 and leaf_param(path[-1]) not in taken and not any(
+                                e_ == ".".join(path[:n_]) for e_ in entries for n_ in range(1, len(path))):
+                            taken.add(leaf_param(path[-1]))
+                            entries.insert(r.randint(0, len(entries)), ".".join(path))
+                    if any("." in e_ for e_ in entries):
+                        me["sigs"] = [",".join(entries)]
             me["cs"] = form in ("client_stream", "bidi")
             me["ss"] = form in ("server_stream", "bidi")
             if transport != "grpc" and not me["cs"]:
@@ -541,6 +572,13 @@ def selective_yaml(spec):
         {"version": spec["package"], "python_settings": {"common": {"selective_gapic_generation": {
             "methods": [f"{by_name.get(n, spec['package'])}.{n}" for n in sel["listed"]],
             "generate_omitted_as_internal": bool(sel.get("internal"))}}}}]}}
+
+
+def leaf_param(entry):
+    """the keyword parameter a method-signature entry (`book.name`) becomes in the emitted client: the leaf field's name,
+    with `_` appended when it is a word the generator renames"""
+    leaf = entry.split(".")[-1]
+    return leaf + "_" if leaf in RENAMED else leaf
 
 
 def transports_of(spec):
@@ -1306,7 +1344,10 @@ def run_api(ctx, r, spec, label):
             nops.append({"op": "c14.names", "tags": all_tags, "tag": tag, "hash": h, "rpc": me["name"],
                          "internal": sel_status(spec, method_by[(pl["service"], me["name"])][1], me) == "internal"})
             flat = me["sigs"][0].split(",") if me.get("sigs") and not me.get("cs") else []
-            nops.append({"op": "c14.params", "cs": bool(me.get("cs")), "input_type": "T", "flattened": [[n, "t"] for n in flat]})
+            nops.append({"op": "c14.params", "cs": bool(me.get("cs")), "input_type": "T", "flattened": [],
+                         "sig": [[n.split("."), "t"] for n in flat]})
+            if flat:
+                ctx.count("method_signature", "dotted path (%d levels)" % max(n.count(".") for n in flat) if any("." in n for n in flat) else "top-level fields only")
             # result type: the model decides presence and wrapping from the RPC's shape in the INPUT descriptors; the element
             # type string (naming: C11's subject) is taken from the entry itself
             rt = e.get("clientMethod", {}).get("resultType")
@@ -1436,8 +1477,14 @@ def run_api(ctx, r, spec, label):
                 inst = re.search(r"^\s+client = [\w.]+?\.(\w+)\(\)\s*$", out_files.get(f"{SDIR}/{fname}", ""), re.M)
                 if not inst or inst.group(1) != client_short:
                     bad.append(f"the sample instantiates {inst.group(1) if inst else None!r}, metadata names client {client_short!r}")
+                # names AND order of clientMethod.parameters == the real parameter list of the emitted method (inspect.signature
+                # on the imported class): request | requests, the flattened keyword parameters, retry, timeout, metadata
                 if info.get("params") is not None and [p.get("name") for p in cm.get("parameters", [])] != info.get("params"):
-                    bad.append(f"parameters {[p.get('name') for p in cm.get('parameters', [])]} vs signature {info.get('params')}")
+                    ctx.fail("metadata-parameters", f"{fname}: clientMethod.parameters {[p.get('name') for p in cm.get('parameters', [])]} but "
+                             f"{client_short}.{cm.get('shortName')}{tuple(info.get('params'))}"
+                             + (f" (method_signature {me['sigs'][0]!r})" if me.get("sigs") else ""), pl)
+                elif info.get("params") is None:
+                    bad.append(f"the signature of {client_short}.{cm.get('shortName')} could not be read ({info.get('sig_error')})")
                 if cm.get("resultType"):
                     if not info.get("result_same"):
                         bad.append(f"resultType {cm.get('resultType')!r} is not the method's return type {info.get('ret_leaf')!r}")
